@@ -392,14 +392,14 @@ def run(ctx):
     ctx.cov["distinct_programs"] = distinct
     ctx.cov["exhaustive"] = True
     ctx.cov["exhaustive_scope"] = ("per family: every assignment of the listed behaviours to the three endpoints x every endpoint class (chain, stall); every "
-                                   "admissible operation sequence of the listed length over the representative behaviour pairs (cache); every 1-cut / landmark 2-cut "
+                                   "admissible operation sequence of the listed length over the representative behaviour pairs (cache) and of query / wait / new client (renew); every 1-cut / landmark 2-cut "
                                    "split of the listed concrete response shapes (split); every byte-class sequence up to the listed length x every split (tcpread, "
                                    "model only); every status script up to the retry bound (cdn). The random tier is not exhaustive")
     ctx.assumptions += ["TLC, the CommunityModules JSON reader and the driver's mocks / digests (computed from the driver's own table of documents, not by the parser "
                         "under test) are trusted",
                         "contacts with an endpoint that refuses connections cannot be observed (no listener): contact sequences are compared modulo refused endpoints",
                         "which segmentation the client's read calls observe is decided by the kernel: the monitor judges only that the parsed answer equals the one sent",
-                        "TTL: 1 h (never runs out within a row) or 150 ms followed by an explicit 650 ms sleep; between the store and that sleep both a hit and a miss conform"]
+                        "time: every query carries its interval [t0, t1] on the driver's monotonic clock; an answer stored by a query [lo, hi] must be served by a query that ends before lo + TTL - 120 ms and must not be served by one that starts after hi + TTL + 120 ms; in between both conform. TTLs: 1 h, 150 ms (+ 650 ms sleeps), 600 ms (+ 400 ms waits: a hit at 0.67 x TTL, the next query at 1.33 x TTL); sleeps are lower bounds, a late driver only widens the zone where both conform"]
     return lib.finish(ctx, "model_checking",
                       rule="rows = complete programs enumerated by TLC from Failover.tla (initial states x operation sequences; program texts deduplicated by md5) plus seeded random "
                            "rows; a row is non-trivial when more happens in it than one successful first request (a fail-over step, a further query that must consult the cache, "
